@@ -98,6 +98,12 @@ def jobs(tier):
     # 6c. work amount on a cumulative worker: the declared productivity bounds what it can contribute
     for size, p_, wa in itertools.product((2, 3), (1, 2, 3), (2, 5)):
         out.append({"program": prog(3, [var("a", work_amount=wa, max_duration=3), cumul("c1", size, productivity=p_), req("a", "c1")]), "families": fam, "family": "work-cumulative"})
+    # 6d. several tasks with a work amount (each one must reach its own amount with its own workers)
+    for wa1, wa2 in ((2, 3), (3, 1), (2, 2)):
+        out.append({"program": prog(3, [var("a", work_amount=wa1, max_duration=3), var("b", work_amount=wa2, max_duration=3), worker("w1"), worker("w2", productivity=2),
+                                        req("a", "w1"), req("b", "w2")]), "families": fam, "family": "work-two-tasks"})
+        out.append({"program": prog(3, [var("a", work_amount=wa1, max_duration=3), fixed("c", 1), var("b", work_amount=wa2, max_duration=3), worker("w1"),
+                                        req("a", "w1"), req("c", "w1"), req("b", "w1")]), "families": fam, "family": "work-two-tasks"})
     # 7. work amounts and productivities
     prods = (0, 1, 2, 3) if tier in ("thorough", "deep") else (0, 1, 2)
     for p1, p2 in itertools.product(prods, prods):
